@@ -284,9 +284,23 @@ def run_standins(res: Result, contracts, mods, tier):
             except _Budget:
                 res.errors.append(f"stand-in {modname}.{f.__name__} exceeded its wall-clock budget of {budget}s")
                 continue
-            except Exception:
-                res.errors.append(f"stand-in {modname}.{f.__name__} crashed: {traceback.format_exc()[-600:]}")
-                continue
+            except Exception as ex:
+                # Where did it come from?  An exception raised INSIDE the code under test (innermost frame in the repository tree), on inputs
+                # for which the same seeded stand-in completes on the unchanged tree, is an observation about that code: the public call failed
+                # instead of returning the right answer.  Anything raised in /verif itself is a fault of the checker.
+                tb = traceback.extract_tb(ex.__traceback__)
+                repo = os.path.realpath(api.REPO) + os.sep
+                inner = tb[-1] if tb else None
+                in_repo = inner is not None and os.path.realpath(inner.filename).startswith(repo)
+                if not in_repo:
+                    res.errors.append(f"stand-in {modname}.{f.__name__} crashed: {traceback.format_exc()[-600:]}")
+                    continue
+                where = next((fr for fr in reversed(tb) if os.path.realpath(fr.filename).startswith(os.path.realpath(VERIF) + os.sep)), None)
+                r = dict(function=f"{modname}.{f.__name__}[calls into {os.path.relpath(os.path.realpath(inner.filename), repo)}]", case="raised", cases=1, distinct=1, failures=1,
+                         exhaustive=False, bound="the stand-in's seeded inputs (it completes on the unchanged tree)",
+                         _fails=[dict(args=dict(standin=f"{modname}.{f.__name__}", raised_in=f"{os.path.relpath(os.path.realpath(inner.filename), repo)}:{inner.lineno} ({inner.name})",
+                                                called_from=(f"{os.path.relpath(where.filename, VERIF)}:{where.lineno}" if where else None), tier=tier, seed=res.seed),
+                                      failed="real-code-raised", clause=f"{type(ex).__name__}: {str(ex)[:300]} — raised inside the code under test on an input the stand-in handles on the unchanged tree")])
             r.setdefault("wall_s", round(time.time() - t0, 2))
             r.setdefault("_fails", [])
             res.standins.append(r)
